@@ -8,8 +8,8 @@ import Cppcms.C09.Spec
 Judge of recorded histories (the property predicate `Spec.LinearizedBy`, executable form
 `Spec.checkLin`, evaluated on what the real code did):
 
-    new thread <limit>
-    R <tid> <idx> <inv> <res|-> <hook stamp|-> <result words> ; <op words as in C07's protocol>
+    new thread <limit> [<initial refs>]
+    R <tid> <idx> <inv> <res|-> <hook stamp|-> <result words> ; <op words as in C07's protocol | addref | delref>   (results also: added | dropped 0|1)
     …
     end            -> `1` or `0 <clause that fails> [detail]`
     endfast        -> same without the (cubic) real-time clause and for long histories
@@ -38,35 +38,45 @@ structure JRec where
   lin : Option Nat
 
 structure DState where
-  s0 : State := State.init 0
+  s0 : XState := ⟨State.init 0, 0⟩
   recs : List JRec := []          -- newest first
   sim : Option Config := none
-  progs : List (List Op) := []
+  progs : List (List XOp) := []
 
 def parseRet (w : List String) : Option Ret :=
   match w with
-  | ["miss"] => some (.ok .miss)
-  | ["ok"] => some (.ok .done)
+  | ["miss"] => some (.ok (.cache .miss))
+  | ["ok"] => some (.ok (.cache .done))
+  | ["added"] => some (.ok .added)
+  | ["dropped", b] => some (.ok (.dropped (b == "1")))
   | ["stats", k, t] => match k.toNat?, t.toNat? with
-    | some k, some t => some (.ok (.stats k t))
+    | some k, some t => some (.ok (.cache (.stats k t)))
     | _, _ => none
   | ["hit", v, ts, d, g] =>
     match parseHex v, Proto.parseTrigs ts, d.toInt?, g.toNat? with
-    | some v, some ts, some d, some g => some (.ok (.hit v ts d (UInt64.ofNat g)))
+    | some v, some ts, some d, some g => some (.ok (.cache (.hit v ts d (UInt64.ofNat g))))
     | _, _, _, _ => none
   | ["undefined"] => some .undefined
   | _ => none
 
 def retStr : Ret → String
-  | .ok (.stats k t) => s!"stats {k} {t}"
-  | .ok o => Proto.outStr o
+  | .ok (.cache (.stats k t)) => s!"stats {k} {t}"
+  | .ok (.cache o) => Proto.outStr o
+  | .ok .added => "added"
+  | .ok (.dropped b) => s!"dropped {if b then 1 else 0}"
   | .undefined => "undefined"
 
+def parseXOp (w : List String) : Option XOp :=
+  match w with
+  | ["addref"] => some .addRef
+  | ["delref"] => some .delRef
+  | _ => (Proto.parseOp w).map fun p => .cache p.1
+
 /-- compare trigger sets as sets: re-order the recorded list to the model's -/
-def alignRet (impl : Ret) (model : Out) : Ret :=
+def alignRet (impl : Ret) (model : XOut) : Ret :=
   match impl, model with
-  | .ok (.hit v ts d g), .hit _ ts' _ _ =>
-    if Proto.sameSet ts ts' && Proto.nodupB ts then .ok (.hit v ts' d g) else impl
+  | .ok (.cache (.hit v ts d g)), .cache (.hit _ ts' _ _) =>
+    if Proto.sameSet ts ts' && Proto.nodupB ts then .ok (.cache (.hit v ts' d g)) else impl
   | _, _ => impl
 
 def optNat (w : String) : Option (Option Nat) := if w == "-" then some none else w.toNat?.map some
@@ -120,7 +130,7 @@ def minimalIn (rem : List JRec) (j : JRec) : Bool :=
 /-- depth-first search over the orders compatible with real time, pruned by the recorded results;
 `budget` bounds the number of visited nodes.  Candidates are tried in hook-stamp order (a
 heuristic only: the verdict does not depend on the stamps). -/
-def dfs : Nat → State → List JRec → List Lin → Nat → Option (List Lin) × Nat
+def dfs : Nat → XState → List JRec → List Lin → Nat → Option (List Lin) × Nat
   | 0, _, _, _, b => (none, b)
   | fuel + 1, s, rem, acc, b =>
     if rem.isEmpty then (some acc.reverse, b)
@@ -129,7 +139,7 @@ def dfs : Nat → State → List JRec → List Lin → Nat → Option (List Lin)
       cands.foldl (fun (rb : Option (List Lin) × Nat) j =>
         if rb.1.isSome || rb.2 == 0 then rb
         else
-          let so := step s j.r.op
+          let so := xstep s j.r.op
           let ok : Bool := match j.r.resp with
             | some (_, ret) => alignRet ret so.2 == .ok so.2
             | none => true
@@ -159,12 +169,16 @@ def stepLine (st : DState) (line : String) : DState × String :=
   match words line with
   | ["new", "thread", limit] =>
     match limit.toNat? with
-    | some l => ({ s0 := State.init l none }, "ok")
+    | some l => ({ s0 := ⟨State.init l none, 0⟩ }, "ok")
     | none => (st, "bad-op")
+  | ["new", "thread", limit, refs] =>
+    match limit.toNat?, refs.toInt? with
+    | some l, some r => ({ s0 := ⟨State.init l none, r⟩ }, "ok")
+    | _, _ => (st, "bad-op")
   | "R" :: tid :: idx :: inv :: res :: lin :: rest =>
     let (resw, opw) := Proto.splitAt ";" rest
-    match tid.toNat?, idx.toNat?, inv.toNat?, optNat res, optNat lin, Proto.parseOp opw with
-    | some tid, some idx, some inv, some res, some lin, some (op, _) =>
+    match tid.toNat?, idx.toNat?, inv.toNat?, optNat res, optNat lin, parseXOp opw with
+    | some tid, some idx, some inv, some res, some lin, some op =>
       let resp : Option (Option (Nat × Ret)) :=
         match res with
         | none => some none
@@ -178,11 +192,11 @@ def stepLine (st : DState) (line : String) : DState × String :=
   | ["endsearch", budget] => ({ st with recs := [] }, searchJudge st (budget.toNat?.getD 100000))
   | ["sim", limit, n] =>
     match limit.toNat?, n.toNat? with
-    | some l, some n => ({ st with s0 := State.init l none, progs := List.replicate n [], sim := none }, "ok")
+    | some l, some n => ({ st with s0 := ⟨State.init l none, 0⟩, progs := List.replicate n [], sim := none }, "ok")
     | _, _ => (st, "bad-op")
   | "P" :: tid :: opw =>
-    match tid.toNat?, Proto.parseOp opw with
-    | some t, some (op, _) =>
+    match tid.toNat?, parseXOp opw with
+    | some t, some op =>
       if t < st.progs.length then ({ st with progs := st.progs.modify t (· ++ [op]) }, "ok") else (st, "bad-op")
     | _, _ => (st, "bad-op")
   | "go" :: sched =>
